@@ -26,7 +26,7 @@ func init() {
 			"all score values for ProbE/E*/conversions, plus seeded probabilities in (0,1); a case is non-trivial when the value lies in the range the statement judges " +
 			"(printable range, finite and representable conversion, non-tie probability); distinct = (section,value[,encoding])",
 		Batches:     func(string) int { return 1 },
-		Cases:       func(r *obs.Run) int { return 8 },
+		Cases:       func(r *obs.Run) int { return 9 },
 		Case:        c18Case,
 		MinDistinct: func(string) int { return 2000 },
 		Floors: func(string) map[string]int64 {
@@ -36,6 +36,7 @@ func init() {
 			"reference formulas use float64 math.Pow/Log10; ties closer than 1e-9 to a rounding boundary are not judged",
 			"Solexa printable range taken as -5..62 (the documented Q-range mapped to bytes 59..126); Phred ranges 0..93 (+33), 0..62 (+64), 2..62 (Illumina 1.5)",
 			"sentinels (Phred 254/255, Solexa 127/-128) judged only for mutual agreement of error probabilities",
+			"under None the two decoders only have to agree with each other (one result is the conversion of the other); derived containers (Copy, Clone) are judged on what they report themselves, not on independence from the original",
 		},
 	})
 }
@@ -117,6 +118,21 @@ func c18Case(r *obs.Run, i int) {
 					r.Violate("phred-roundtrip", fmt.Sprintf("linear.QSeq QDecode(QEncode) %d under %s = %d", q, encNames[e], got),
 						c18w{"linear.QSeq-roundtrip", q, encNames[e], got, q})
 				}
+				// the containers were asked for encoding e: they report it, their byte is the byte of e (not merely one that
+				// their own decoder undoes), and their decoder reads the byte of e
+				if ph.Encoding() != e || qs.Encoding() != e {
+					r.Violate("phred-encode-byte", fmt.Sprintf("containers built with encoding %s report %s (quality.Phred) and %s (linear.QSeq)", encNames[e], encNames[ph.Encoding()], encNames[qs.Encoding()]),
+						c18w{"container-encoding", q, encNames[e], []int{int(ph.Encoding()), int(qs.Encoding())}, int(e)})
+				}
+				if b1, b2 := ph.QEncode(0), qs.QEncode(0); int(b1) != q+phredOffset(e) || int(b2) != q+phredOffset(e) {
+					r.Violate("phred-encode-byte", fmt.Sprintf("containers built with encoding %s holding %d: QEncode gives %d (quality.Phred) and %d (linear.QSeq), want %d", encNames[e], q, b1, b2, q+phredOffset(e)),
+						c18w{"container-QEncode", q, encNames[e], []int{int(b1), int(b2)}, q + phredOffset(e)})
+				}
+				if got := ph.QDecode(byte(q + phredOffset(e))); int(got) != q {
+					r.Violate("phred-decode", fmt.Sprintf("quality.Phred built with encoding %s: QDecode(%d)=%d want %d", encNames[e], q+phredOffset(e), got, q),
+						c18w{"quality.Phred-QDecode", q + phredOffset(e), encNames[e], int(got), q})
+				}
+				r.Count("container_bytes_compared", 2)
 				// the same through containers that do not start at position 0
 				for _, off := range []int{-3, 1, 40} {
 					php := quality.NewPhred("x", []alphabet.Qphred{7, alphabet.Qphred(q), 9}, e)
@@ -127,6 +143,13 @@ func c18Case(r *obs.Run, i int) {
 						r.Violate("phred-roundtrip", fmt.Sprintf("containers starting at %d, middle position holding %d under %s: quality.Phred decode(QEncode)=%d At=%d EAt=%g, linear.QSeq decode(QEncode)=%d At=%d EAt=%g", off, q, encNames[e], g1, php.At(off+1), php.EAt(off+1), g2, qsp.At(off+1).Q, qsp.EAt(off+1)),
 							c18w{"placed-container-roundtrip", q, encNames[e], []int{int(g1), int(g2)}, q})
 					}
+					if b1, b2 := php.QEncode(off+1), qsp.QEncode(off+1); int(b1) != q+phredOffset(e) || int(b2) != q+phredOffset(e) {
+						r.Violate("phred-encode-byte", fmt.Sprintf("containers starting at %d, middle position holding %d under %s: QEncode gives %d (quality.Phred) and %d (linear.QSeq), want %d", off, q, encNames[e], b1, b2, q+phredOffset(e)),
+							c18w{"placed-container-QEncode", q, encNames[e], []int{int(b1), int(b2)}, q + phredOffset(e)})
+					}
+					r.Count("container_bytes_compared", 2)
+					// objects derived from these (Copy, Clone) hold the same scores under the same encoding at the same positions
+					c18PhredCopies(r, php, qsp, off, q, e)
 					// ... and its FASTQ rendering, whole and cut short by a precision
 					want3 := string([]byte{byte(7 + phredOffset(e)), byte(q + phredOffset(e)), byte(9 + phredOffset(e))})
 					if lines := strings.Split(fmt.Sprintf("%q", qsp), "\n"); len(lines) < 4 || lines[3] != want3 {
@@ -171,6 +194,12 @@ func c18Case(r *obs.Run, i int) {
 					qp, qs := e.DecodeToQphred(byte(b)), e.DecodeToQsolexa(byte(b))
 					switch e {
 					case alphabet.None:
+						// no score type is None's own: the two decoders must give the same answer in one of the two
+						// senses used below (what that answer is, is left to the library)
+						if qp != qs.Qphred() && qs != qp.Qsolexa() {
+							r.Violate("decode-cross-type", fmt.Sprintf("None.DecodeToQphred(%d)=%d and None.DecodeToQsolexa(%d)=%d are not conversions of one another (%d -> Solexa %d, %d -> Phred %d)", b, qp, b, qs, qp, qp.Qsolexa(), qs, qs.Qphred()), c18w{"decode", b, encNames[e], []int{int(qp), int(qs)}, nil})
+						}
+						r.Count("none_bytes_cross_checked", 1)
 					case alphabet.Solexa:
 						if qp != qs.Qphred() {
 							r.Violate("decode-cross-type", fmt.Sprintf("Solexa.DecodeToQphred(%d)=%d, DecodeToQsolexa then Qphred gives %d", b, qp, qs.Qphred()), c18w{"decode", b, encNames[e], int(qp), int(qs.Qphred())})
@@ -214,6 +243,17 @@ func c18Case(r *obs.Run, i int) {
 					r.Violate("solexa-roundtrip", fmt.Sprintf("quality.Solexa starting at %d, middle position holding %d: decode(QEncode)=%d At=%d EAt=%g", off, s, g, sop.At(off+1), sop.EAt(off+1)),
 						c18w{"placed-container-roundtrip", s, "Solexa", int(g), s})
 				}
+				if b := sop.QEncode(off + 1); int(b) != s+64 {
+					r.Violate("solexa-encode-byte", fmt.Sprintf("quality.Solexa starting at %d, middle position holding %d: QEncode gives %d want %d", off, s, b, s+64),
+						c18w{"placed-container-QEncode", s, "Solexa", int(b), s + 64})
+				}
+				r.Count("container_bytes_compared", 1)
+				// an object derived from it (Copy) holds the same score under the same encoding at the same position
+				if c := sop.Copy(); c.Encoding() != alphabet.Solexa || int(c.QEncode(off+1)) != s+64 || int(c.Encoding().DecodeToQsolexa(c.QEncode(off+1))) != s || !relClose(c.EAt(off+1), alphabet.Qsolexa(s).ProbE()) {
+					r.Violate("solexa-roundtrip", fmt.Sprintf("Copy() of a quality.Solexa starting at %d holding 7,%d,9 under Solexa: encoding %s, QEncode(%d)=%d want %d, EAt=%g want %g", off, s, encNames[c.Encoding()], off+1, c.QEncode(off+1), s+64, c.EAt(off+1), alphabet.Qsolexa(s).ProbE()),
+						c18w{"quality.Solexa-Copy", s, "Solexa", int(c.QEncode(off + 1)), s + 64})
+				}
+				r.Count("derived_containers_checked", 1)
 				r.Count("placed_container_checks", 1)
 			}
 			so := quality.NewSolexa("x", []alphabet.Qsolexa{alphabet.Qsolexa(s)}, alphabet.Solexa)
@@ -221,6 +261,15 @@ func c18Case(r *obs.Run, i int) {
 				r.Violate("solexa-roundtrip", fmt.Sprintf("quality.Solexa QDecode(QEncode) %d = %d", s, got),
 					c18w{"quality.Solexa-roundtrip", s, "Solexa", got, s})
 			}
+			if b := so.QEncode(0); int(b) != s+64 || so.Encoding() != alphabet.Solexa {
+				r.Violate("solexa-encode-byte", fmt.Sprintf("quality.Solexa built with encoding Solexa holding %d: QEncode gives %d want %d, Encoding() %s", s, b, s+64, encNames[so.Encoding()]),
+					c18w{"container-QEncode", s, "Solexa", int(b), s + 64})
+			}
+			if got := so.QDecode(byte(s + 64)); int(got) != s {
+				r.Violate("solexa-decode", fmt.Sprintf("quality.Solexa built with encoding Solexa: QDecode(%d)=%d want %d", s+64, got, s),
+					c18w{"quality.Solexa-QDecode", s + 64, "Solexa", int(got), s})
+			}
+			r.Count("container_bytes_compared", 1)
 		}
 	case 2: // decoding every byte: Phred-offset decoders are byte - offset on the printable range
 		for _, e := range []alphabet.Encoding{alphabet.Sanger, alphabet.Illumina1_3, alphabet.Illumina1_5, alphabet.Illumina1_8, alphabet.Illumina1_9} {
@@ -281,6 +330,18 @@ func c18Case(r *obs.Run, i int) {
 				if int(ph.At(0)) != q || !relClose(ph.EAt(0), want) {
 					r.Violate("phred-prob-roundtrip", fmt.Sprintf("quality.Phred SetE/At for q=%d gave %d", q, ph.At(0)), c18w{"quality.Phred-SetE", q, "", int(ph.At(0)), q})
 				}
+				// ... the same into a container placed at 5 whose initial content is never the expected answer, error looked at
+				for _, e := range []alphabet.Encoding{alphabet.Sanger, alphabet.Solexa, alphabet.Illumina1_3, alphabet.None} {
+					php := quality.NewPhred("x", []alphabet.Qphred{3, 3}, e)
+					if q == 3 {
+						php.Set(1, 40)
+					}
+					php.SetOffset(5)
+					if err := php.SetE(6, want); err != nil || int(php.At(6)) != q || int(php.At(5)) != 3 || !relClose(php.EAt(6), want) {
+						r.Violate("phred-prob-roundtrip", fmt.Sprintf("quality.Phred (encoding %s) starting at 5: SetE(6, %g) for q=%d returned %v and stored %d (position 5 holds %d)", encNames[e], want, q, err, php.At(6), php.At(5)), c18w{"quality.Phred-SetE-placed", q, encNames[e], int(php.At(6)), q})
+					}
+					r.Count("placed_sete_exact_probabilities", 1)
+				}
 				// ... and linear.QSeq's, at a position other than 0 (q=0 is probability 1 exactly)
 				qs := linear.NewQSeq("x", []alphabet.QLetter{{L: 'a', Q: 3}, {L: 'c', Q: 3}}, alphabet.DNA, alphabet.Sanger)
 				qs.SetOffset(5)
@@ -293,6 +354,7 @@ func c18Case(r *obs.Run, i int) {
 			}
 			prev = p
 		}
+		c18SwitchOverPoints(r, false)
 	case 4: // Solexa ProbE, Esolexa, monotone
 		prev := math.Inf(1)
 		for s := -128; s < 128; s++ {
@@ -338,6 +400,7 @@ func c18Case(r *obs.Run, i int) {
 			}
 			prev = p
 		}
+		c18SwitchOverPoints(r, true)
 	case 5: // conversions
 		for q := 0; q < 256; q++ {
 			got := alphabet.Qphred(q).Qsolexa()
@@ -431,6 +494,8 @@ func c18Case(r *obs.Run, i int) {
 				r.Violate("conversion-prob-agreement", fmt.Sprintf("ProbE(Qsolexa %d)=%g outside the band [%g,%g] of its Phred conversion %d", s, p, lo, hi, q), c18w{"agreeS", s, "", p, []float64{lo, hi}})
 			}
 		}
+	case 8: // long-lived containers taken through the encodings again and again
+		c18ReEncode(r)
 	case 6, 7: // sampled probabilities: nearest score
 		n := r.Pick(50000, 5000000)
 		for k := 0; k < n; k++ {
@@ -497,7 +562,7 @@ func c18Case(r *obs.Run, i int) {
 				if saturated {
 					r.Count("solexa_probabilities_outside_the_score_range", 1)
 				}
-				judged := saturated || (!nearTie(a) && want >= -127 && want <= 126 && math.Abs(a-math.Round(a)) < 0.49)
+				judged := saturated || (!nearTie(a) && want >= -127 && want <= 126)
 				r.Note(fmt.Sprintf("se/%x", math.Float64bits(p)), judged)
 				if !judged {
 					continue
@@ -526,5 +591,151 @@ func c18Case(r *obs.Run, i int) {
 		r.Sample(map[string]interface{}{"section": i, "example": fmt.Sprintf("Qphred(40): Sanger byte %d, ProbE %g, Solexa %d; Qsolexa(-5): byte %d, ProbE %g, Phred %d",
 			alphabet.Qphred(40).Encode(alphabet.Sanger), alphabet.Qphred(40).ProbE(), alphabet.Qphred(40).Qsolexa(),
 			alphabet.Qsolexa(-5).Encode(alphabet.Solexa), alphabet.Qsolexa(-5).ProbE(), alphabet.Qsolexa(-5).Qphred())})
+	}
+}
+
+// c18PhredCopies: objects derived from the placed containers (quality.Phred.Copy, linear.QSeq.Clone) hold the score q
+// under encoding e at the same position. Only what the derived object says about itself is looked at; nothing is
+// demanded about its independence from the original.
+func c18PhredCopies(r *obs.Run, php *quality.Phred, qsp *linear.QSeq, off, q int, e alphabet.Encoding) {
+	wantB, wantP := q+phredOffset(e), alphabet.Qphred(q).ProbE()
+	if c := php.Copy(); c.Encoding() != e || int(c.QEncode(off+1)) != wantB || int(c.Encoding().DecodeToQphred(c.QEncode(off+1))) != q || !relClose(c.EAt(off+1), wantP) {
+		r.Violate("phred-roundtrip", fmt.Sprintf("Copy() of a quality.Phred starting at %d holding 7,%d,9 under %s: encoding %s, QEncode(%d)=%d want %d, EAt=%g want %g", off, q, encNames[e], encNames[c.Encoding()], off+1, c.QEncode(off+1), wantB, c.EAt(off+1), wantP),
+			c18w{"quality.Phred-Copy", q, encNames[e], int(c.QEncode(off + 1)), wantB})
+	}
+	r.Count("derived_containers_checked", 1)
+	type scorer interface {
+		Encoding() alphabet.Encoding
+		QEncode(int) byte
+		EAt(int) float64
+	}
+	cl := qsp.Clone()
+	c, ok := cl.(scorer)
+	if !ok {
+		return
+	}
+	want3 := string([]byte{byte(7 + phredOffset(e)), byte(wantB), byte(9 + phredOffset(e))})
+	lines := strings.Split(fmt.Sprintf("%q", cl), "\n")
+	if c.Encoding() != e || int(c.QEncode(off+1)) != wantB || int(c.Encoding().DecodeToQphred(c.QEncode(off+1))) != q || !relClose(c.EAt(off+1), wantP) || len(lines) < 4 || lines[3] != want3 {
+		r.Violate("phred-roundtrip", fmt.Sprintf("Clone() of a linear.QSeq starting at %d holding 7,%d,9 under %s: encoding %s, QEncode(%d)=%d want %d, EAt=%g want %g, %%q rendering %q want the quality line %q", off, q, encNames[e], encNames[c.Encoding()], off+1, c.QEncode(off+1), wantB, c.EAt(off+1), wantP, lines, want3),
+			c18w{"linear.QSeq-Clone", q, encNames[e], lines, want3})
+	}
+	r.Count("derived_containers_checked", 1)
+}
+
+// c18SwitchOverPoints: probabilities a hair to either side of every point where the nearest score changes
+// (score - 0.5 +- 1e-3, 1e-5, 1e-7 on the score scale), through Ephred/Esolexa and the containers' SetE.
+// A point is judged when the score-scale value recomputed from the float64 probability is still the intended
+// one to 1e-8 (probabilities within 1e-12 or so of 1 cannot carry the displacement and are left out).
+func c18SwitchOverPoints(r *obs.Run, solexa bool) {
+	for k := -126; k <= 253; k++ {
+		if solexa && k > 126 || !solexa && k < 1 {
+			continue
+		}
+		for _, d := range []float64{-1e-3, 1e-3, -1e-5, 1e-5, -1e-7, 1e-7} {
+			x := float64(k) - 0.5 + d
+			var p, a float64
+			if solexa {
+				t := math.Pow(10, -x/10)
+				p = t / (1 + t)
+				a = -10 * math.Log10(p/(1-p))
+			} else {
+				p = math.Pow(10, -x/10)
+				a = -10 * math.Log10(p)
+			}
+			want := math.Floor(a + 0.5)
+			judged := p > 0 && p < 1 && math.Abs(a-x) < 1e-8 && !nearTie(a) && (want == float64(k) || want == float64(k-1))
+			r.Note(fmt.Sprint("edge/", solexa, "/", k, "/", d), judged)
+			if !judged {
+				continue
+			}
+			r.Count("switch_over_points_judged", 1)
+			if solexa {
+				so := quality.NewSolexa("x", []alphabet.Qsolexa{3, 3}, alphabet.Solexa)
+				err := so.SetE(1, p)
+				if got := alphabet.Esolexa(p); float64(got) != want || err != nil || float64(so.At(1)) != want {
+					r.Violate("esolexa-nearest", fmt.Sprintf("Esolexa(%v)=%d, quality.Solexa SetE stored %d (error %v), want %g: the probability lies at %.9f on the score scale", p, got, so.At(1), err, want, a), c18w{"esolexa-switch-over", p, "", int(got), want})
+				}
+				continue
+			}
+			ph := quality.NewPhred("x", []alphabet.Qphred{3, 3}, alphabet.Sanger)
+			qs := linear.NewQSeq("x", []alphabet.QLetter{{L: 'a', Q: 3}, {L: 'c', Q: 3}}, alphabet.DNA, alphabet.Sanger)
+			err1, err2 := ph.SetE(1, p), qs.SetE(1, p)
+			if got := alphabet.Ephred(p); float64(got) != want || err1 != nil || err2 != nil || float64(ph.At(1)) != want || float64(qs.At(1).Q) != want {
+				r.Violate("ephred-nearest", fmt.Sprintf("Ephred(%v)=%d, quality.Phred SetE stored %d (error %v), linear.QSeq SetE stored %d (error %v), want %g: the probability lies at %.9f on the score scale", p, got, ph.At(1), err1, qs.At(1).Q, err2, want, a), c18w{"ephred-switch-over", p, "", int(got), want})
+			}
+		}
+	}
+}
+
+// c18ReEncode: one linear.QSeq, one quality.Phred and one quality.Solexa live through the whole case; their encoding is
+// changed with SetEncoding again and again (order drawn from the case's generator) and under each setting every
+// in-range score is stored and read back as a byte (QEncode, String(), the %q quality line).
+func c18ReEncode(r *obs.Run) {
+	encs := []alphabet.Encoding{alphabet.Sanger, alphabet.Illumina1_3, alphabet.Illumina1_5, alphabet.Illumina1_8, alphabet.Illumina1_9}
+	const off = 2
+	qs := linear.NewQSeq("x", []alphabet.QLetter{{L: 'a', Q: 7}, {L: 'c', Q: 8}, {L: 'g', Q: 9}}, alphabet.DNA, alphabet.None)
+	ph := quality.NewPhred("x", []alphabet.Qphred{7, 8, 9}, alphabet.None)
+	so := quality.NewSolexa("x", []alphabet.Qsolexa{7, 8, 9}, alphabet.None)
+	qs.SetOffset(off)
+	ph.SetOffset(off)
+	so.SetOffset(off)
+	for round := 0; round < 3; round++ {
+		for _, ei := range r.Rng.Perm(len(encs)) {
+			e := encs[ei]
+			err1, err2 := qs.SetEncoding(e), ph.SetEncoding(e)
+			if err1 != nil || err2 != nil || qs.Encoding() != e || ph.Encoding() != e {
+				r.Violate("phred-encode-byte", fmt.Sprintf("SetEncoding(%s) on long-lived containers (round %d): linear.QSeq returned %v and reports %s, quality.Phred returned %v and reports %s", encNames[e], round, err1, encNames[qs.Encoding()], err2, encNames[ph.Encoding()]),
+					c18w{"SetEncoding", round, encNames[e], []int{int(qs.Encoding()), int(ph.Encoding())}, int(e)})
+				continue
+			}
+			// what they held before the change (7,8,9) is rendered under the new setting at once
+			was3 := string([]byte{byte(7 + phredOffset(e)), byte(8 + phredOffset(e)), byte(9 + phredOffset(e))})
+			if lines := strings.Split(fmt.Sprintf("%q", qs), "\n"); ph.String() != was3 || len(lines) < 4 || lines[3] != was3 {
+				r.Violate("phred-encode-byte", fmt.Sprintf("long-lived containers holding 7,8,9 just set to %s with SetEncoding (round %d): String() %q, %%q rendering %q, want the bytes %q", encNames[e], round, ph.String(), lines, was3),
+					c18w{"re-encoded-containers", 8, encNames[e], lines, was3})
+			}
+			lo, hi := phredRange(e)
+			for k := lo; k <= hi+1; k++ {
+				q := k
+				if k > hi {
+					q = 8 // leave 7,8,9 behind for the next setting
+				}
+				r.Note(fmt.Sprint("re/", round, "/", encNames[e], "/", q), true)
+				qs.Set(off+1, alphabet.QLetter{L: 'c', Q: alphabet.Qphred(q)})
+				ph.Set(off+1, alphabet.Qphred(q))
+				want3 := string([]byte{byte(7 + phredOffset(e)), byte(q + phredOffset(e)), byte(9 + phredOffset(e))})
+				lines := strings.Split(fmt.Sprintf("%q", qs), "\n")
+				if b1, b2 := qs.QEncode(off+1), ph.QEncode(off+1); b1 != want3[1] || b2 != want3[1] || ph.String() != want3 || len(lines) < 4 || lines[3] != want3 || int(ph.QDecode(b2)) != q {
+					r.Violate("phred-encode-byte", fmt.Sprintf("long-lived containers set to %s with SetEncoding (round %d), middle score %d: QEncode %d (linear.QSeq) and %d (quality.Phred), String() %q, %%q rendering %q, want the bytes %q", encNames[e], round, q, b1, b2, ph.String(), lines, want3),
+						c18w{"re-encoded-containers", q, encNames[e], lines, want3})
+				}
+				r.Count("reencoded_container_checks", 1)
+			}
+			// the Solexa container goes to None and back to Solexa in between
+			if err := so.SetEncoding(alphabet.None); err != nil || so.Encoding() != alphabet.None {
+				r.Violate("solexa-encode-byte", fmt.Sprintf("quality.Solexa SetEncoding(None) returned %v, reports %s", err, encNames[so.Encoding()]), c18w{"SetEncoding", round, "None", int(so.Encoding()), int(alphabet.None)})
+			}
+			if err := so.SetEncoding(alphabet.Solexa); err != nil || so.Encoding() != alphabet.Solexa {
+				r.Violate("solexa-encode-byte", fmt.Sprintf("quality.Solexa SetEncoding(Solexa) (round %d) returned %v, reports %s", round, err, encNames[so.Encoding()]), c18w{"SetEncoding", round, "Solexa", int(so.Encoding()), int(alphabet.Solexa)})
+				continue
+			}
+			if str := so.String(); str != "GHI" {
+				r.Violate("solexa-encode-byte", fmt.Sprintf("long-lived quality.Solexa holding 7,8,9 just set back to Solexa with SetEncoding (round %d): String() %q, want \"GHI\"", round, str), c18w{"re-encoded-containers", 8, "Solexa", str, "GHI"})
+			}
+			for k := -5; k <= 63; k++ {
+				s := k
+				if k > 62 {
+					s = 8
+				}
+				so.Set(off+1, alphabet.Qsolexa(s))
+				want3 := string([]byte{7 + 64, byte(s + 64), 9 + 64})
+				if b := so.QEncode(off + 1); b != want3[1] || so.String() != want3 || int(so.QDecode(b)) != s {
+					r.Violate("solexa-encode-byte", fmt.Sprintf("long-lived quality.Solexa set back to Solexa with SetEncoding (round %d), middle score %d: QEncode %d, String() %q, want the bytes %q", round, s, b, so.String(), want3),
+						c18w{"re-encoded-containers", s, "Solexa", so.String(), want3})
+				}
+				r.Count("reencoded_container_checks", 1)
+			}
+		}
 	}
 }
